@@ -4,6 +4,7 @@
    failure occurs, and the assertions of the classes are events checked by `run`.
    Layer A: the algebra of one local update.  Statements only. *)
 From Coq Require Import List Arith ZArith.
+From PTN Require Import TTN.Store TTN.Canon TTN.Inv TTN.CanonTree Evo.TDVPStore Evo.TDVPStoreEffects Evo.TDVPStoreProofs.   (* store level, see the end *)
 From PTN Require Import Tree.RTree Tree.Nav Tree.UpdatePath Tree.CachePath Tree.Enum Tree.EnumProofs
      Sched.TDVP Sched.TDVPProofs Sched.TDVPMore Sched.TDVPFresh Sched.TDVPBounded Sched.TDVPFreshU.
 Import ListNotations.
@@ -124,3 +125,132 @@ Example C06_example : option_map calls (trace1 C06_ex) =
   NoDup (ids C06_ex).
 Proof. repeat split; try (vm_compute; reflexivity). repeat constructor; simpl; intuition discriminate. Qed.
 Print Assumptions C06_example.
+
+(* ==== Store level (Layer W): one time step as a program over the symbolic store ============================== *)
+(* Evo/TDVPStore.v interprets the trace events as the store operations the Python performs (site update = read +
+   raw replacement by an opaque tensor of the same shape; link update = split_node_qr(KEEP) with the link identifier,
+   cache read, link evolution, contract_nodes(link, next); centre moves = move_orthogonalization_center(KEEP)); the
+   harness compares the structure after the constructor and after every step with the real classes (c06w.py).
+   tmatch t l: every edge of the schedule's tree t is a parent pointer of the node dictionary l, every identifier of t a
+   key (the child ORDER of the store is free: it drifts during a run while the paths stay those of the initial tree).
+   Conclusions: the step SUCCEEDS, the store invariant holds again, identifiers / parent pointers / children sets are
+   those of the start (same_tree), the root is unchanged, the recorded centre is update_path[0] and every other node
+   is a single QR-Q atom whose bond sits on its leg toward the centre (iso_check): canonical at the first node. *)
+Theorem C06_first_order_step_on_store : forall lk tmp t s u rest,
+  NoDup (ids t) -> 2 <= size t -> tmatch t (nodes s) -> wfb s = true -> update_path t = Some (u :: rest) ->
+  iso_check (s, Some u) = true ->
+  amem tmp (nodes s) = false -> (forall a b, amem (lk a b) (nodes s) = false) ->
+  exists cs', tdvp1_step_t lk tmp t (s, Some u) = Some cs' /\
+    wfb (fst cs') = true /\ same_tree (nodes s) (nodes (fst cs')) /\ root (fst cs') = root s /\
+    snd cs' = Some u /\ iso_check cs' = true /\ tmatch t (nodes (fst cs')).
+Proof. exact tdvp1_step_t_ok. Qed.
+Print Assumptions C06_first_order_step_on_store.
+
+Theorem C06_second_order_step_on_store : forall lk tmp t s u rest,
+  NoDup (ids t) -> 2 <= size t -> tmatch t (nodes s) -> wfb s = true -> update_path t = Some (u :: rest) ->
+  iso_check (s, Some u) = true ->
+  amem tmp (nodes s) = false -> (forall a b, amem (lk a b) (nodes s) = false) ->
+  exists cs', tdvp2_step_t lk tmp t (s, Some u) = Some cs' /\
+    wfb (fst cs') = true /\ same_tree (nodes s) (nodes (fst cs')) /\ root (fst cs') = root s /\
+    snd cs' = Some u /\ iso_check cs' = true /\ tmatch t (nodes (fst cs')).
+Proof. exact tdvp2_step_t_ok. Qed.
+Print Assumptions C06_second_order_step_on_store.
+
+(* tensor shapes (KEEP mode): after the step every node has, toward every neighbour, the dimension it had before, and
+   the same open-leg dimensions in the same order (Node.shape = node_shape; the leg ORDER may change with the child order) *)
+Theorem C06_first_order_step_keeps_shapes : forall lk tmp t s u rest cs',
+  NoDup (ids t) -> 2 <= size t -> tmatch t (nodes s) -> wfb s = true -> update_path t = Some (u :: rest) ->
+  iso_check (s, Some u) = true ->
+  amem tmp (nodes s) = false -> (forall a b, amem (lk a b) (nodes s) = false) ->
+  tdvp1_step_t lk tmp t (s, Some u) = Some cs' ->
+  forall k nk nk', aget k (nodes s) = Some nk -> aget k (nodes (fst cs')) = Some nk' ->
+    skipn (nvirt nk') (node_shape nk') = skipn (nvirt nk) (node_shape nk) /\
+    forall x i i', neighbour_index nk x = Some i -> neighbour_index nk' x = Some i' ->
+                   nth i' (node_shape nk') 0 = nth i (node_shape nk) 0.
+Proof. exact tdvp1_step_t_shapes. Qed.
+Print Assumptions C06_first_order_step_keeps_shapes.
+
+Theorem C06_second_order_step_keeps_shapes : forall lk tmp t s u rest cs',
+  NoDup (ids t) -> 2 <= size t -> tmatch t (nodes s) -> wfb s = true -> update_path t = Some (u :: rest) ->
+  iso_check (s, Some u) = true ->
+  amem tmp (nodes s) = false -> (forall a b, amem (lk a b) (nodes s) = false) ->
+  tdvp2_step_t lk tmp t (s, Some u) = Some cs' ->
+  forall k nk nk', aget k (nodes s) = Some nk -> aget k (nodes (fst cs')) = Some nk' ->
+    skipn (nvirt nk') (node_shape nk') = skipn (nvirt nk) (node_shape nk) /\
+    forall x i i', neighbour_index nk x = Some i -> neighbour_index nk' x = Some i' ->
+                   nth i' (node_shape nk') 0 = nth i (node_shape nk) 0.
+Proof. exact tdvp2_step_t_shapes. Qed.
+Print Assumptions C06_second_order_step_keeps_shapes.
+
+(* any number of consecutive steps with the paths of the initial tree *)
+Theorem C06_steps_on_store : forall (first_order : bool) lk tmp t u rest,
+  NoDup (ids t) -> 2 <= size t -> update_path t = Some (u :: rest) ->
+  forall k s, tmatch t (nodes s) -> wfb s = true -> iso_check (s, Some u) = true ->
+  amem tmp (nodes s) = false -> (forall a b, amem (lk a b) (nodes s) = false) ->
+  exists cs', iter_step (if first_order then tdvp1_step_t lk tmp t else tdvp2_step_t lk tmp t) k (s, Some u) = Some cs' /\
+    wfb (fst cs') = true /\ same_tree (nodes s) (nodes (fst cs')) /\ root (fst cs') = root s /\
+    snd cs' = Some u /\ iso_check cs' = true /\ tmatch t (nodes (fst cs')).
+Proof. exact tdvp_steps_ok. Qed.
+Print Assumptions C06_steps_on_store.
+
+(* the tree read off a well-formed store with >= 2 nodes is a legitimate schedule tree ... *)
+Theorem C06_tree_of_store : forall s, wfb s = true -> 2 <= length (nodes s) ->
+  exists t, tree_of s = Some t /\ NoDup (ids t) /\ 2 <= size t /\ tmatch t (nodes s).
+Proof. exact tree_of_ok. Qed.
+Print Assumptions C06_tree_of_store.
+
+(* ... hence the steps that extract their tree from the store itself *)
+Theorem C06_first_order_step_own_tree : forall lk tmp s t u,
+  wfb s = true -> 2 <= length (nodes s) -> tree_of s = Some t -> first_of t = Some u ->
+  iso_check (s, Some u) = true -> amem tmp (nodes s) = false -> (forall a b, amem (lk a b) (nodes s) = false) ->
+  exists cs', tdvp1_step lk tmp (s, Some u) = Some cs' /\
+    wfb (fst cs') = true /\ same_tree (nodes s) (nodes (fst cs')) /\ root (fst cs') = root s /\
+    snd cs' = Some u /\ iso_check cs' = true /\ tmatch t (nodes (fst cs')).
+Proof. exact tdvp1_step_ok. Qed.
+Print Assumptions C06_first_order_step_own_tree.
+
+Theorem C06_second_order_step_own_tree : forall lk tmp s t u,
+  wfb s = true -> 2 <= length (nodes s) -> tree_of s = Some t -> first_of t = Some u ->
+  iso_check (s, Some u) = true -> amem tmp (nodes s) = false -> (forall a b, amem (lk a b) (nodes s) = false) ->
+  exists cs', tdvp2_step lk tmp (s, Some u) = Some cs' /\
+    wfb (fst cs') = true /\ same_tree (nodes s) (nodes (fst cs')) /\ root (fst cs') = root s /\
+    snd cs' = Some u /\ iso_check cs' = true /\ tmatch t (nodes (fst cs')).
+Proof. exact tdvp2_step_ok. Qed.
+Print Assumptions C06_second_order_step_own_tree.
+
+(* the link update along an edge (a the centre, b a neighbour, lid the fresh link identifier): succeeds, keeps the
+   invariant, leaves a as the fresh Q atom with its bond toward b, touches no third node, removes the link node *)
+Theorem C06_link_update_on_store : forall s a b lid nd,
+  Inv.wf s -> aget a (nodes s) = Some nd -> In b (neighbouring_nodes nd) -> aget lid (nodes s) = None ->
+  exists s', link_update s a b lid = Some s' /\ Inv.wf s' /\ weffect s a b s' nd /\ aget lid (nodes s') = None.
+Proof.
+  intros s a b lid nd W Ea Hin Hl. destruct (link_update_some s a b lid nd W Ea Hin Hl) as [s' H].
+  exists s'. split; [exact H|]. exact (link_update_effect s a b lid s' nd W Ea Hin Hl H).
+Qed.
+Print Assumptions C06_link_update_on_store.
+
+(* the site update is TTN/Canon.v's `scramble` (read = transpose + permutation reset, then raw replacement) *)
+Theorem C06_site_update_is_scramble : forall s n, site_update s n = scramble s n.
+Proof. exact site_update_scramble. Qed.
+Print Assumptions C06_site_update_is_scramble.
+
+(* non-vacuity: a chain of three nodes rooted at an end, canonicalised at the first node of the sweep (node 2);
+   both steps run, end at node 2 and satisfy the isometry attribute; all hypotheses of the theorems hold *)
+Definition C06_store_ex : option cstore :=
+  let s0 := fst (Store.run empty_store [AddRoot 0 [2; 2]; AddChild 1 [2; 3; 2] 0 0 0; AddChild 2 [3; 2] 0 1 1]) in
+  canonical_form (s0, None) 2 Keep 99.
+
+Example C06_store_example :
+  match C06_store_ex with
+  | Some (s, c) =>
+      c = Some 2 /\ wfb s = true /\ iso_check (s, c) = true /\ tree_of s = Some C06_ex /\ first_of C06_ex = Some 2 /\
+      amem 99 (nodes s) = false /\
+      match tdvp1_step (fun a b => 100 + 10 * a + b) 99 (s, c), tdvp2_step (fun a b => 100 + 10 * a + b) 99 (s, c) with
+      | Some c1, Some c2 => snd c1 = Some 2 /\ iso_check c1 = true /\ snd c2 = Some 2 /\ iso_check c2 = true /\
+                            akeys (nodes (fst c1)) = [0; 1; 2]
+      | _, _ => False
+      end
+  | None => False
+  end.
+Proof. vm_compute. repeat split; reflexivity. Qed.
+Print Assumptions C06_store_example.
